@@ -31,7 +31,7 @@ Apply(e) ==
       [] e.ev = "quiet"   -> PQuiet(SeqToSet(e.blk))
       [] e.ev = "spin"    -> PSpin(e.actor)
       \* "step" / "teardown": controller steps logged for X-level trace validation (Once/MemoXTrace.tla)
-      [] e.ev \in {"leak", "note", "end", "step", "teardown"} -> UNCHANGED pvars
+      [] e.ev \in {"leak", "note", "end", "step", "teardown", "cfg"} -> UNCHANGED pvars
       [] OTHER            -> /\ bad' = bad \cup {"Unexplained"}
                              /\ UNCHANGED <<kind, fnst, fnval, cst, cinfo, canc, errRet>>
 
